@@ -13,7 +13,8 @@ QUICK_BASES_11 = ["frame", "frame_index", "frame_multi", "series", "series_index
                   "multiindex"]
 
 
-def plan_shards(tier, parsers=False, bases=None, nshards_big=48, quick_pairs=("frame",), extra=None):
+def plan_shards(tier, parsers=False, bases=None, nshards_big=48, quick_pairs=("frame",), extra=None,
+                thorough_combos=((1, 2), (2, 1), (2, 2))):
     cases = []
     bases = bases or QUICK_BASES_11
     for b in bases:
@@ -27,7 +28,7 @@ def plan_shards(tier, parsers=False, bases=None, nshards_big=48, quick_pairs=("f
                                   "rich": False})
     else:
         for b in bases:
-            for (ks, kd) in ((1, 2), (2, 1), (2, 2)):
+            for (ks, kd) in thorough_combos:
                 n = nshards_big * (4 if (ks, kd) == (2, 2) else 1)
                 for sh in range(n):
                     cases.append({"base": b, "ks": ks, "kd": kd, "shard": [sh, n], "parsers": parsers,
